@@ -17,26 +17,67 @@ const FLAG_MIDPOINT: &str = "flag:compress_midpoint_truncates_toward_zero";
 
 // ------------------------------------------------------------------------------------
 // Termination watchdog. `compress` and `NextLargerProgram::new` are loops over at most a few
-// hundred items that return within microseconds; a call that has not returned after
-// WATCHDOG_SECS is reported as non-terminating. After the first such call the function is
-// not called again in this process (every further call would cost the full timeout and leave
-// another spinning thread behind), so a hanging case is reported unshrunk.
+// hundred items that return within microseconds. The verdict "does not terminate" is based on
+// WORK, not on wall time: a call is reported as non-terminating once the helper thread that
+// runs it has consumed WATCHDOG_CPU_SECS seconds of CPU time inside that one call (read from
+// /proc/self/task/<tid>/schedstat, or .../stat), so a helper thread that is merely starved on
+// an overloaded machine is waited for, not accused. A call that neither returns nor uses CPU
+// for WATCHDOG_WALL_CAP_SECS, or a platform without per-thread CPU accounting, cannot be
+// decided: the run ends INCONCLUSIVE (exit code 2), never green.
+// After the first confirmed hang the function is not called again in this process (every
+// further call would cost the full budget and leave another spinning thread behind), so a
+// hanging case is reported unshrunk; the cases skipped for that reason can never turn into a
+// pass of the run: `inconclusive_if_hung` ends the run with exit code 2 unless the hang itself
+// has been recorded as the violation.
 
-const WATCHDOG_SECS: u64 = 20;
+const WATCHDOG_CPU_SECS: u64 = 10;
+const WATCHDOG_POLL_MS: u64 = 250;
+const WATCHDOG_WALL_CAP_SECS: u64 = 1800;
+const WATCHDOG_NO_ACCOUNTING_WALL_SECS: u64 = 120;
 static HUNG: std::sync::atomic::AtomicBool = std::sync::atomic::AtomicBool::new(false);
+
+const SKIP_AFTER_HANG: &str = "an earlier call did not terminate; the function is not called again in this process (the run cannot end green)";
 
 enum Guarded<R> {
     Done(R),
     Panicked(panics::PanicInfo),
-    TimedOut,
+    /// CPU seconds used by the call when it was given up
+    TimedOut(u64),
     NotCalled,
 }
 
 type Job = Box<dyn FnOnce() + Send + 'static>;
 
+struct Helper {
+    jobs: std::sync::mpsc::Sender<Job>,
+    /// kernel thread id of the helper, when the platform tells
+    tid: Option<u64>,
+}
+
 thread_local! {
     /// One helper thread per harness worker, created on first use and reused for every call.
-    static HELPER: std::cell::RefCell<Option<std::sync::mpsc::Sender<Job>>> = const { std::cell::RefCell::new(None) };
+    static HELPER: std::cell::RefCell<Option<Helper>> = const { std::cell::RefCell::new(None) };
+}
+
+/// CPU time (user+system, nanoseconds) consumed so far by thread `tid` of this process.
+fn thread_cpu_ns(tid: u64) -> Option<u64> {
+    if let Ok(s) = std::fs::read_to_string(format!("/proc/self/task/{tid}/schedstat")) {
+        if let Some(ns) = s.split_whitespace().next().and_then(|f| f.parse::<u64>().ok()) {
+            return Some(ns);
+        }
+    }
+    // proc(5): after the parenthesised command name, utime and stime are the 12th and 13th
+    // fields, in clock ticks of 1/100 s (USER_HZ).
+    let s = std::fs::read_to_string(format!("/proc/self/task/{tid}/stat")).ok()?;
+    let rest = &s[s.rfind(')')? + 1..];
+    let f: Vec<&str> = rest.split_whitespace().collect();
+    let (u, k) = (f.get(11)?.parse::<u64>().ok()?, f.get(12)?.parse::<u64>().ok()?);
+    Some((u + k) * 10_000_000)
+}
+
+fn inconclusive(why: &str) -> ! {
+    eprintln!("C17: INCONCLUSIVE: {why}");
+    std::process::exit(2);
 }
 
 fn guarded<R: Send + 'static>(f: impl FnOnce() -> R + Send + 'static) -> Guarded<R> {
@@ -47,35 +88,78 @@ fn guarded<R: Send + 'static>(f: impl FnOnce() -> R + Send + 'static) -> Guarded
     let job: Job = Box::new(move || {
         let _ = rtx.send(panics::catch(f));
     });
-    HELPER.with(|h| {
+    let tid = HELPER.with(|h| {
         let mut h = h.borrow_mut();
         if h.is_none() {
             let (tx, rx) = std::sync::mpsc::channel::<Job>();
+            let (tid_tx, tid_rx) = std::sync::mpsc::channel::<Option<u64>>();
             let spawned = std::thread::Builder::new().stack_size(8 << 20).spawn(move || {
+                // "/proc/thread-self" -> "<pid>/task/<tid>"
+                let tid = std::fs::read_link("/proc/thread-self").ok().and_then(|p| p.file_name().and_then(|n| n.to_str()).and_then(|n| n.parse::<u64>().ok()));
+                let _ = tid_tx.send(tid);
                 while let Ok(job) = rx.recv() {
                     job();
                 }
             });
             if spawned.is_err() {
-                eprintln!("C17: cannot spawn a watchdog helper thread");
-                std::process::exit(2);
+                inconclusive("cannot spawn a watchdog helper thread");
             }
-            *h = Some(tx);
+            let tid = tid_rx.recv().ok().flatten().filter(|t| thread_cpu_ns(*t).is_some());
+            *h = Some(Helper { jobs: tx, tid });
         }
-        if h.as_ref().unwrap().send(job).is_err() {
-            eprintln!("C17: watchdog helper thread is gone");
-            std::process::exit(2);
+        h.as_ref().unwrap().tid
+    });
+    // The helper is idle now, so this is its CPU time before the call.
+    let cpu0 = tid.and_then(thread_cpu_ns);
+    HELPER.with(|h| {
+        if h.borrow().as_ref().unwrap().jobs.send(job).is_err() {
+            inconclusive("watchdog helper thread is gone");
         }
     });
-    match rrx.recv_timeout(std::time::Duration::from_secs(WATCHDOG_SECS)) {
-        Ok(Ok(r)) => Guarded::Done(r),
-        Ok(Err(p)) => Guarded::Panicked(p),
-        Err(_) => {
-            HUNG.store(true, Ordering::SeqCst);
-            HELPER.with(|h| *h.borrow_mut() = None);
-            Guarded::TimedOut
+    let t0 = std::time::Instant::now();
+    loop {
+        match rrx.recv_timeout(std::time::Duration::from_millis(WATCHDOG_POLL_MS)) {
+            Ok(Ok(r)) => return Guarded::Done(r),
+            Ok(Err(p)) => return Guarded::Panicked(p),
+            Err(std::sync::mpsc::RecvTimeoutError::Disconnected) => inconclusive("watchdog helper thread died inside a call"),
+            Err(std::sync::mpsc::RecvTimeoutError::Timeout) => {}
+        }
+        let wall = t0.elapsed().as_secs();
+        match (cpu0, tid.and_then(thread_cpu_ns)) {
+            (Some(a), Some(b)) => {
+                let used = b.saturating_sub(a) / 1_000_000_000;
+                if used >= WATCHDOG_CPU_SECS {
+                    HUNG.store(true, Ordering::SeqCst);
+                    HELPER.with(|h| *h.borrow_mut() = None);
+                    return Guarded::TimedOut(used);
+                }
+                if wall >= WATCHDOG_WALL_CAP_SECS {
+                    inconclusive(&format!("a call has not returned after {wall} s of wall time but used only {used} s of CPU: cannot tell a hang from a starved thread"));
+                }
+            }
+            _ => {
+                if wall >= WATCHDOG_NO_ACCOUNTING_WALL_SECS {
+                    inconclusive(&format!("a call has not returned after {wall} s and per-thread CPU time is not available on this platform: cannot tell a hang from a starved thread"));
+                }
+            }
         }
     }
+}
+
+/// A skipped-after-hang case must never contribute to a green run.
+fn inconclusive_if_hung(ctx: &Ctx) {
+    if HUNG.load(Ordering::SeqCst) && ctx.is_generate() && ctx.failures.lock().unwrap().is_empty() {
+        inconclusive("a call was given up by the watchdog but no violation was recorded for it; cases were skipped afterwards");
+    }
+}
+
+/// Verdict for a case that was not evaluated because of an earlier hang: a skip while the
+/// generated search goes on (its failure is being reported), inconclusive in a replay.
+fn skipped_after_hang(case: &Case) -> Verdict {
+    if case.replay {
+        inconclusive("replay case not evaluated: an earlier call in this process did not terminate");
+    }
+    Verdict::Skip(SKIP_AFTER_HANG)
 }
 
 // ------------------------------------------------------------------------------------
@@ -97,6 +181,7 @@ impl Tally {
             *self.classes.entry(c).or_default() += n;
         }
     }
+    #[allow(dead_code)]
     fn skip(&mut self, c: &'static str, n: u64) {
         if n > 0 {
             *self.skipped.entry(c).or_default() += n;
@@ -345,8 +430,135 @@ fn check_display(v: i32, buf: &mut String, mb: &mut Vec<u8>) -> Result<usize, St
     Ok(digits)
 }
 
-fn parse_single_ast(v: i32, text: &str) -> Result<(), String> {
-    let src = format!("(DESIGNUNITS R {text})\n");
+// The nodes of a property list that carry a fix_word. The printed text is read back inside
+// each of them: the reader's handling of what follows the number (closing parenthesis,
+// wrapper types `TupleValue`, `Option<FixWord>`, `DesignSize`, named parameters) differs per node.
+#[derive(Clone, Copy, Debug, PartialEq, Eq)]
+enum Carrier {
+    Parameter,
+    Slant,
+    Kern,
+    CharWd,
+    CharHt,
+    DesignUnits,
+    DesignSize,
+}
+
+const CARRIERS: [Carrier; 7] = [Carrier::Parameter, Carrier::Slant, Carrier::Kern, Carrier::CharWd, Carrier::CharHt, Carrier::DesignUnits, Carrier::DesignSize];
+const CARRIER_CLASSES: [&str; 7] = [
+    "read back in (FONTDIMEN (PARAMETER D 1 R t) ..)",
+    "read back in (FONTDIMEN (SLANT R t) ..)",
+    "read back in (LIGTABLE (KRN C a R t) ..)",
+    "read back in (CHARACTER C a (CHARWD R t) ..)",
+    "read back in (CHARACTER C a (CHARHT R t) ..)",
+    "read back in (DESIGNUNITS R t), t>0",
+    "read back in (DESIGNSIZE R t), t>=1.0",
+];
+
+impl Carrier {
+    /// PLtoTF accepts every fix_word in FONTDIMEN, KRN and CHAR.. nodes; DESIGNUNITS must be
+    /// positive (PLtoTF 95) and DESIGNSIZE at least 1.0 (PLtoTF 94), so those two nodes carry
+    /// only such values and every other value of their batches travels in a PARAMETER node.
+    fn valid_for(self, v: i32) -> bool {
+        match self {
+            Carrier::DesignUnits => v > 0,
+            Carrier::DesignSize => v >= 1 << 20,
+            _ => true,
+        }
+    }
+    fn for_value(self, v: i32) -> Carrier {
+        if self.valid_for(v) {
+            self
+        } else {
+            Carrier::Parameter
+        }
+    }
+    fn idx(self) -> usize {
+        CARRIERS.iter().position(|c| *c == self).unwrap()
+    }
+    fn wrap(self, text: &str, out: &mut String) {
+        let (a, b) = match self {
+            Carrier::Parameter => ("(FONTDIMEN (PARAMETER D 1 R ", "))\n"),
+            Carrier::Slant => ("(FONTDIMEN (SLANT R ", "))\n"),
+            Carrier::Kern => ("(LIGTABLE (KRN C a R ", "))\n"),
+            Carrier::CharWd => ("(CHARACTER C a (CHARWD R ", "))\n"),
+            Carrier::CharHt => ("(CHARACTER C a (CHARHT R ", "))\n"),
+            Carrier::DesignUnits => ("(DESIGNUNITS R ", ")\n"),
+            Carrier::DesignSize => ("(DESIGNSIZE R ", ")\n"),
+        };
+        out.push_str(a);
+        out.push_str(text);
+        out.push_str(b);
+    }
+    /// (opening of the enclosing list, opening of one item, closing of one item) for batches in
+    /// which one list holds every value of the batch; `None` for the two root-level nodes.
+    fn grouped(self) -> Option<(&'static str, &'static str, &'static str)> {
+        match self {
+            Carrier::Parameter => Some(("(FONTDIMEN\n", " (PARAMETER D 1 R ", ")\n")),
+            Carrier::Slant => Some(("(FONTDIMEN\n", " (SLANT R ", ")\n")),
+            Carrier::Kern => Some(("(LIGTABLE\n", " (KRN C a R ", ")\n")),
+            Carrier::CharWd => Some(("(CHARACTER C a\n", " (CHARWD R ", ")\n")),
+            Carrier::CharHt => Some(("(CHARACTER C a\n", " (CHARHT R ", ")\n")),
+            Carrier::DesignUnits | Carrier::DesignSize => None,
+        }
+    }
+    /// The fix_word the reader stored in this node, when the node has exactly the expected shape.
+    fn extract(self, root: &Root) -> Option<i32> {
+        let mut all = vec![];
+        root_values(root, &mut all);
+        match &all[..] {
+            [(c, Some(v))] if *c == self => Some(*v),
+            _ => None,
+        }
+    }
+}
+
+/// Every fix_word held by a root node, in source order, with the kind of node that holds it
+/// (`None` for a child of an unexpected shape).
+fn root_values(root: &Root, out: &mut Vec<(Carrier, Option<i32>)>) {
+    use tfm::pl::ast::{Character, DesignSize, FontDimension, LigTable};
+    match root {
+        Root::FontDimension(b) => {
+            for ch in &b.children {
+                out.push(match ch {
+                    FontDimension::IndexedParam(tv) if tv.left.0 == 1 => (Carrier::Parameter, Some(tv.right.0)),
+                    FontDimension::NamedParam(tfm::NamedParameter::Slant, sv) => (Carrier::Slant, Some(sv.data.0)),
+                    _ => (Carrier::Parameter, None),
+                });
+            }
+        }
+        Root::LigTable(b) => {
+            for ch in &b.children {
+                out.push(match ch {
+                    LigTable::Kern(tv) if tv.left == Char(b'a') => (Carrier::Kern, Some(tv.right.0)),
+                    _ => (Carrier::Kern, None),
+                });
+            }
+        }
+        Root::Character(b) if b.data == Char(b'a') => {
+            for ch in &b.children {
+                out.push(match ch {
+                    Character::Width(sv) => (Carrier::CharWd, sv.data.map(|f| f.0)),
+                    Character::Height(sv) => (Carrier::CharHt, Some(sv.data.0)),
+                    _ => (Carrier::CharWd, None),
+                });
+            }
+        }
+        Root::DesignUnits(sv) => out.push((Carrier::DesignUnits, Some(sv.data.0))),
+        Root::DesignSize(sv) => out.push((
+            Carrier::DesignSize,
+            match sv.data {
+                DesignSize::Valid(f) => Some(f.0),
+                DesignSize::Invalid => None,
+            },
+        )),
+        _ => out.push((Carrier::Parameter, None)),
+    }
+}
+
+fn parse_single_ast(v: i32, text: &str, carrier: Carrier) -> Result<(), String> {
+    let mut src = String::new();
+    carrier.wrap(text, &mut src);
     let (ast, warnings) = match panics::catch(|| Ast::from_pl_source_code(&src)) {
         Ok(r) => r,
         Err(p) => return Err(format!("PL reader panics on {:?} at {}: {}", src, p.site(), p.message)),
@@ -355,13 +567,13 @@ fn parse_single_ast(v: i32, text: &str) -> Result<(), String> {
         return Err(format!("PL reader warns on {:?}: {:?}", src, warnings));
     }
     match &ast.0[..] {
-        [Root::DesignUnits(sv)] if sv.data.0 == v => Ok(()),
-        other => Err(format!("FixWord({v}) prints as {text:?} which the PL reader reads back as {:?}", other)),
+        [root] if carrier.extract(root) == Some(v) => Ok(()),
+        other => Err(format!("FixWord({v}) prints as {text:?}; the PL reader reads {:?} back as {:?}", src, other)),
     }
 }
 
 fn parse_single_file(v: i32, text: &str) -> Result<(), String> {
-    let src = format!("(FONTDIMEN\n   (PARAMETER D 3 R {text})\n   )\n");
+    let src = format!("(FONTDIMEN\n   (PARAMETER D 3 R {text})\n   )\n(CHARACTER C a\n   (CHARWD R {text})\n   (CHARHT R {text})\n   (CHARDP R {text})\n   (CHARIC R {text})\n   )\n");
     let (file, warnings) = match panics::catch(|| tfm::pl::File::from_pl_source_code(&src)) {
         Ok(r) => r,
         Err(p) => return Err(format!("pl::File reader panics on {:?} at {}: {}", src, p.site(), p.message)),
@@ -372,24 +584,178 @@ fn parse_single_file(v: i32, text: &str) -> Result<(), String> {
     if file.params.len() != 3 || file.params[2].0 != v {
         return Err(format!("FixWord({v}) prints as {text:?}; pl::File reads the parameter back as {:?}", file.params));
     }
-    Ok(())
+    let want = Some(FixWord(v));
+    match file.char_dimens.get(&Char(b'a')) {
+        Some(d) if d.width == want && d.height == want && d.depth == want && d.italic_correction == want => Ok(()),
+        other => Err(format!("FixWord({v}) prints as {text:?}; pl::File reads the character dimensions back as {:?}", other)),
+    }
+}
+
+/// The property-list WRITER: a `pl::File` holding the values is rendered with `display` (the
+/// path `File::lower` -> `Ast::lower` -> `Parse::to_string` -> CST printer that produces .pl
+/// files) and read again. Values travel as parameters (named and indexed), the four
+/// dimensions of characters, kerns of one lig/kern program, and the design size when a value
+/// can be one. Only identity of the values is demanded.
+const WRITER_PARAMS: usize = 254;
+const WRITER_CHARS: usize = 256;
+const WRITER_KERNS: usize = 200;
+const WRITER_BATCH: usize = WRITER_PARAMS + 4 * WRITER_CHARS + WRITER_KERNS;
+
+#[derive(Default)]
+struct WriterInfo {
+    reader_warnings: usize,
+    design_size: bool,
+}
+
+fn writer_round_trip(vals: &[i32], format: tfm::pl::CharDisplayFormat) -> Result<WriterInfo, String> {
+    use tfm::ligkern::lang::{Instruction, Operation};
+    let mut file = tfm::pl::File::default();
+    let (pv, rest) = vals.split_at(vals.len().min(WRITER_PARAMS));
+    let (dv, kv) = rest.split_at(rest.len().min(4 * WRITER_CHARS));
+    file.params = pv.iter().map(|v| FixWord(*v)).collect();
+    for (c, q) in dv.chunks(4).enumerate() {
+        let g = |i: usize| q.get(i).map(|v| FixWord(*v));
+        file.char_dimens.insert(Char(c as u8), tfm::pl::CharDimensions { width: Some(g(0).unwrap()), height: g(1), depth: g(2), italic_correction: g(3) });
+    }
+    if !kv.is_empty() {
+        // one program: LABEL C <first character>, then one KRN per value, right characters 0..
+        if !file.char_dimens.contains_key(&Char(0)) {
+            file.char_dimens.insert(Char(0), tfm::pl::CharDimensions { width: Some(FixWord(0)), ..Default::default() });
+        }
+        for (i, v) in kv.iter().enumerate() {
+            file.lig_kern_program.instructions.push(Instruction {
+                next_instruction: if i + 1 == kv.len() { None } else { Some(0) },
+                right_char: Char(i as u8),
+                operation: Operation::Kern(FixWord(*v)),
+            });
+        }
+        file.char_tags.insert(Char(0), tfm::pl::CharTag::Ligature(0));
+    }
+    let ds = vals.iter().copied().find(|v| *v >= 1 << 20);
+    if let Some(ds) = ds {
+        file.header.design_size = FixWord(ds);
+    }
+    let text = match panics::catch(|| format!("{}", file.display(3, format))) {
+        Ok(t) => t,
+        Err(p) => return Err(format!("the PL writer panics at {}: {}", p.site(), p.message)),
+    };
+    let (back, warnings) = match panics::catch(|| tfm::pl::File::from_pl_source_code(&text)) {
+        Ok(r) => r,
+        Err(p) => return Err(format!("pl::File reader panics on the writer's output at {}: {}", p.site(), p.message)),
+    };
+    let excerpt = |needle: String| -> String {
+        text.lines().filter(|l| l.contains(&needle)).take(3).collect::<Vec<_>>().join(" | ")
+    };
+    if back.params != file.params {
+        let k = (0..file.params.len()).find(|k| back.params.get(*k) != file.params.get(*k)).unwrap_or(back.params.len().min(file.params.len()));
+        return Err(format!(
+            "parameter {} = {:?} is written and read back as {:?} ({} parameters written, {} read; reader warnings {:?})",
+            k + 1,
+            file.params.get(k),
+            back.params.get(k),
+            file.params.len(),
+            back.params.len(),
+            warnings.iter().take(2).collect::<Vec<_>>()
+        ));
+    }
+    if back.char_dimens != file.char_dimens {
+        for (c, d) in &file.char_dimens {
+            if back.char_dimens.get(c) != Some(d) {
+                return Err(format!("character {} with {:?} is written and read back as {:?}; written text: {}", c.0, d, back.char_dimens.get(c), excerpt(format!("{}", d.width.unwrap_or_default()))));
+            }
+        }
+        return Err(format!("{} characters written, {} read back", file.char_dimens.len(), back.char_dimens.len()));
+    }
+    let kerns = |f: &tfm::pl::File| -> Vec<(u8, Option<i32>)> {
+        f.lig_kern_program.instructions.iter().map(|i| (i.right_char.0, match i.operation { Operation::Kern(k) => Some(k.0), _ => None })).collect()
+    };
+    let (kw, kb) = (kerns(&file), kerns(&back));
+    if kw != kb {
+        let k = (0..kw.len()).find(|k| kb.get(*k) != kw.get(*k)).unwrap_or(kb.len().min(kw.len()));
+        return Err(format!("kern step {k} {:?} is written and read back as {:?} ({} steps written, {} read)", kw.get(k), kb.get(k), kw.len(), kb.len()));
+    }
+    if ds.is_some() && back.header.design_size != file.header.design_size {
+        return Err(format!("design size {:?} is written and read back as {:?}", file.header.design_size, back.header.design_size));
+    }
+    Ok(WriterInfo { reader_warnings: warnings.len(), design_size: ds.is_some() })
+}
+
+/// i32::MIN: the word exists in TFM files (TFtoPL prints `-2048.0` for it), so `Display` must
+/// not panic and must print what TFtoPL prints. The PL format cannot express the value
+/// (PLtoTF 64 rejects every real constant of magnitude >= 2048), so identity of the read-back
+/// is not demanded; the reader must not panic and must either report the number or return the
+/// identical word, never silently another value.
+fn check_min_word() -> Result<(), String> {
+    let v = i32::MIN;
+    let mut buf = String::new();
+    let mut mb = vec![];
+    display_fix(v, &mut buf)?;
+    ma::out_fix(v, &mut mb)?;
+    if buf.as_bytes() != &mb[..] || buf != "-2048.0" {
+        return Err(format!("FixWord(i32::MIN) prints as {:?}; TFtoPL 40-43 prints {:?}", buf, String::from_utf8_lossy(&mb)));
+    }
+    if ma::get_fix(&mb).is_some() {
+        return Err("reference self-check: PLtoTF get_fix accepts -2048.0".into());
+    }
+    for carrier in [Carrier::Parameter, Carrier::Kern, Carrier::CharWd] {
+        let mut src = String::new();
+        carrier.wrap(&buf, &mut src);
+        let (ast, warnings) = match panics::catch(|| Ast::from_pl_source_code(&src)) {
+            Ok(r) => r,
+            Err(p) => return Err(format!("PL reader panics on {:?} at {}: {}", src, p.site(), p.message)),
+        };
+        let got = match &ast.0[..] {
+            [root] => carrier.extract(root),
+            _ => None,
+        };
+        if warnings.is_empty() && got != Some(v) {
+            return Err(format!("the PL reader reads {:?} as {:?} without any warning (PLtoTF 64: real constants must be less than 2048)", src, got));
+        }
+    }
+    // the writer must survive the word as well
+    let mut file = tfm::pl::File::default();
+    file.params = vec![FixWord(v)];
+    file.char_dimens.insert(Char(b'a'), tfm::pl::CharDimensions { width: Some(FixWord(v)), height: Some(FixWord(v)), depth: None, italic_correction: None });
+    match panics::catch(|| format!("{}", file.display(3, tfm::pl::CharDisplayFormat::Default))) {
+        Ok(t) if t.matches("R -2048.0").count() == 3 => Ok(()),
+        Ok(t) => Err(format!("the PL writer does not print `R -2048.0` three times for i32::MIN: {t:?}")),
+        Err(p) => Err(format!("the PL writer panics on FixWord(i32::MIN) at {}: {}", p.site(), p.message)),
+    }
 }
 
 fn fix_single(v: &i32) -> Verdict {
     let v = *v;
     if v == i32::MIN {
-        return Verdict::Skip("i32::MIN (-2048.0) is not expressible in PL");
+        return match check_min_word() {
+            Ok(()) => Verdict::pass(false),
+            Err(e) => Verdict::Fail(e),
+        };
     }
     let mut buf = String::new();
     let mut mb = vec![];
     if let Err(e) = check_display(v, &mut buf, &mut mb) {
         return Verdict::Fail(e);
     }
-    if let Err(e) = parse_single_ast(v, &buf) {
-        return Verdict::Fail(e);
+    for c in CARRIERS {
+        if c.valid_for(v) {
+            if let Err(e) = parse_single_ast(v, &buf, c) {
+                return Verdict::Fail(e);
+            }
+        }
     }
     if let Err(e) = parse_single_file(v, &buf) {
         return Verdict::Fail(e);
+    }
+    for format in [tfm::pl::CharDisplayFormat::Default, tfm::pl::CharDisplayFormat::Octal] {
+        // as a parameter, as all four dimensions of a character, and as a kern
+        let mut vals = vec![v; 2];
+        vals.extend(std::iter::repeat(0).take(WRITER_PARAMS - 2));
+        vals.extend([v; 4]);
+        vals.extend(std::iter::repeat(0).take(4 * WRITER_CHARS - 4));
+        vals.extend([v; 2]);
+        if let Err(e) = writer_round_trip(&vals, format) {
+            return Verdict::Fail(format!("PL writer: {e}"));
+        }
     }
     Verdict::pass(v & 0xFFFFF != 0)
 }
@@ -415,7 +781,8 @@ fn run_fixword_text(ctx: &Ctx) {
         Tier::Quick => (
             Plan::new(vec![
                 Seg::Range { lo: -((1 << 22) - 1), n: (1 << 23) - 1 },
-                Seg::Multiples { step: 4099, kmin: -523_905, n: 2 * 523_905 + 1 },
+                // 4099 * 523_904 < 2^31: no multiple wraps around
+                Seg::Multiples { step: 4099, kmin: -523_904, n: 2 * 523_904 + 1 },
                 Seg::List(edges.clone()),
                 Seg::Mixed { n: 16_000_000, salt },
             ]),
@@ -431,26 +798,43 @@ fn run_fixword_text(ctx: &Ctx) {
         chunks,
         exhaustive,
         |j, t: &mut Tally| {
+            if j == 0 {
+                // the one word outside the enumeration
+                check_min_word().map_err(|e| (i32::MIN, e))?;
+                t.evals += 1;
+                t.class("i32::MIN: Display = TFtoPL `-2048.0`, reader rejects it (PL cannot express -2048.0)", 1);
+            }
             let lo = j * B;
             let hi = ((j + 1) * B).min(plan.total);
-            let mut src = String::with_capacity((hi - lo) as usize * 30);
-            let mut vals: Vec<i32> = Vec::with_capacity((hi - lo) as usize);
+            let batch_carrier = CARRIERS[(j % CARRIERS.len() as u64) as usize];
+            let mut src = String::with_capacity((hi - lo) as usize * 48);
+            if let Some((open, _, _)) = batch_carrier.grouped() {
+                src.push_str(open);
+            }
+            let mut vals: Vec<(i32, Carrier)> = Vec::with_capacity((hi - lo) as usize);
             let mut buf = String::new();
             let mut mb: Vec<u8> = vec![];
             let mut digits = [0u64; 8];
+            let mut carried = [0u64; 7];
             let (mut neg, mut big, mut nt) = (0u64, 0u64, 0u64);
             for i in lo..hi {
                 let (v, fresh) = plan.at(i);
                 if v == i32::MIN {
-                    t.skip("i32::MIN (-2048.0) is not expressible in PL", 1);
-                    continue;
+                    continue; // checked once above
                 }
                 let d = check_display(v, &mut buf, &mut mb).map_err(|e| (v, e))?;
                 digits[d.min(7)] += 1;
-                src.push_str("(DESIGNUNITS R ");
-                src.push_str(&buf);
-                src.push_str(")\n");
-                vals.push(v);
+                let carrier = batch_carrier.for_value(v);
+                match batch_carrier.grouped() {
+                    Some((_, a, b)) => {
+                        src.push_str(a);
+                        src.push_str(&buf);
+                        src.push_str(b);
+                    }
+                    None => carrier.wrap(&buf, &mut src),
+                }
+                carried[carrier.idx()] += 1;
+                vals.push((v, carrier));
                 if v < 0 {
                     neg += 1;
                 }
@@ -464,27 +848,35 @@ fn run_fixword_text(ctx: &Ctx) {
                     }
                 }
             }
+            if batch_carrier.grouped().is_some() {
+                src.push_str(" )\n");
+            }
+            let plain: Vec<i32> = vals.iter().map(|x| x.0).collect();
             let (ast, warnings) = match panics::catch(|| Ast::from_pl_source_code(&src)) {
                 Ok(r) => r,
-                Err(p) => return Err(pinpoint(&vals, format!("PL reader panics at {}: {}", p.site(), p.message))),
+                Err(p) => return Err(pinpoint(&plain, format!("PL reader panics at {}: {}", p.site(), p.message))),
             };
-            if !warnings.is_empty() || ast.0.len() != vals.len() {
-                return Err(pinpoint(&vals, format!("PL reader returns {} nodes and {} warnings for {} values", ast.0.len(), warnings.len(), vals.len())));
+            let mut got: Vec<(Carrier, Option<i32>)> = Vec::with_capacity(vals.len());
+            for root in &ast.0 {
+                root_values(root, &mut got);
             }
-            for (root, &v) in ast.0.iter().zip(vals.iter()) {
-                match root {
-                    Root::DesignUnits(sv) if sv.data.0 == v => {}
-                    other => {
-                        let mut b = String::new();
-                        let _ = display_fix(v, &mut b);
-                        return Err((v, format!("FixWord({v}) prints as {b:?} which the PL reader reads back as {:?}", other)));
-                    }
+            if !warnings.is_empty() || got.len() != vals.len() {
+                return Err(pinpoint(&plain, format!("PL reader returns {} fix_word nodes and {} warnings for {} values", got.len(), warnings.len(), vals.len())));
+            }
+            for (g, &(v, carrier)) in got.iter().zip(vals.iter()) {
+                if *g != (carrier, Some(v)) {
+                    let mut b = String::new();
+                    let _ = display_fix(v, &mut b);
+                    return Err((v, format!("FixWord({v}) prints as {b:?} which the PL reader reads back in a {:?} node as {:?}", carrier, g)));
                 }
             }
             t.evals += vals.len() as u64;
             t.nontrivial += nt;
             for (k, n) in digits.iter().enumerate() {
                 t.class(DIGIT_CLASSES[k], *n);
+            }
+            for (k, n) in carried.iter().enumerate() {
+                t.class(CARRIER_CLASSES[k], *n);
             }
             t.class("negative", neg);
             t.class("|value|>=16.0", big);
@@ -494,10 +886,11 @@ fn run_fixword_text(ctx: &Ctx) {
     );
     ctx.extra("fixword_text", "values_enumerated", serde_json::json!(plan.total));
 
-    // The same round trip through the complete reader pl::File::from_pl_source_code
-    // (FONTDIMEN PARAMETER values are unrestricted fix_words), 254 values per file.
+    // The same round trip through the complete reader pl::File::from_pl_source_code, 254
+    // values per file: FONTDIMEN PARAMETER values (unrestricted fix_words) in even batches,
+    // the four dimensions of 64 characters (252 values used) in odd batches.
     let n_mixed = ctx.tier.pick(200_000u64, 5_000_000u64);
-    let plan2 = Plan::new(vec![Seg::List(edges), Seg::Mixed { n: n_mixed, salt: salt ^ 0x5555_5555 }]);
+    let plan2 = Plan::new(vec![Seg::List(edges.clone()), Seg::Mixed { n: n_mixed, salt: salt ^ 0x5555_5555 }]);
     const B2: u64 = 254;
     hot_loop(
         ctx,
@@ -507,39 +900,113 @@ fn run_fixword_text(ctx: &Ctx) {
         |j, t: &mut Tally| {
             let lo = j * B2;
             let hi = ((j + 1) * B2).min(plan2.total);
-            let mut src = String::from("(FONTDIMEN\n");
+            let as_dimens = j % 2 == 1;
+            const DIMS: [&str; 4] = ["CHARWD", "CHARHT", "CHARDP", "CHARIC"];
+            let mut src = String::from(if as_dimens { "" } else { "(FONTDIMEN\n" });
             let mut vals: Vec<i32> = vec![];
             let mut buf = String::new();
-            let mut nt = 0;
+            let (mut nt, mut neg, mut big) = (0u64, 0u64, 0u64);
             for i in lo..hi {
                 let (v, fresh) = plan2.at(i);
                 if v == i32::MIN {
-                    t.skip("i32::MIN (-2048.0) is not expressible in PL", 1);
-                    continue;
+                    continue; // see fixword_text
                 }
                 display_fix(v, &mut buf).map_err(|e| (v, e))?;
+                let k = vals.len();
                 vals.push(v);
-                let _ = writeln!(src, "   (PARAMETER D {} R {})", vals.len(), buf);
+                if as_dimens {
+                    if k % 4 == 0 {
+                        let _ = writeln!(src, "(CHARACTER D {}", k / 4);
+                    }
+                    let _ = writeln!(src, "   ({} R {})", DIMS[k % 4], buf);
+                    if k % 4 == 3 || i + 1 == hi {
+                        src.push_str("   )\n");
+                    }
+                } else {
+                    let _ = writeln!(src, "   (PARAMETER D {} R {})", vals.len(), buf);
+                }
                 if fresh && v & 0xFFFFF != 0 {
                     nt += 1;
                 }
+                neg += (v < 0) as u64;
+                big += !(-(1 << 24)..(1 << 24)).contains(&v) as u64;
             }
-            src.push_str("   )\n");
+            if !as_dimens {
+                src.push_str("   )\n");
+            }
             let (file, warnings) = match panics::catch(|| tfm::pl::File::from_pl_source_code(&src)) {
                 Ok(r) => r,
                 Err(p) => return Err(pinpoint(&vals, format!("pl::File reader panics at {}: {}", p.site(), p.message))),
             };
-            if !warnings.is_empty() || file.params.len() != vals.len() {
-                return Err(pinpoint(&vals, format!("pl::File reader returns {} parameters and {} warnings for {} values", file.params.len(), warnings.len(), vals.len())));
+            let got: Vec<Option<i32>> = if as_dimens {
+                (0..vals.len())
+                    .map(|k| {
+                        file.char_dimens.get(&Char((k / 4) as u8)).and_then(|d| [d.width, d.height, d.depth, d.italic_correction][k % 4]).map(|f| f.0)
+                    })
+                    .collect()
+            } else {
+                file.params.iter().map(|p| Some(p.0)).collect()
+            };
+            if !warnings.is_empty() || got.len() != vals.len() {
+                return Err(pinpoint(&vals, format!("pl::File reader returns {} values and {} warnings for {} values", got.len(), warnings.len(), vals.len())));
             }
-            for (p, &v) in file.params.iter().zip(vals.iter()) {
-                if p.0 != v {
+            for (p, &v) in got.iter().zip(vals.iter()) {
+                if *p != Some(v) {
                     let _ = display_fix(v, &mut buf);
-                    return Err((v, format!("FixWord({v}) prints as {buf:?}; pl::File reads the parameter back as {}", p.0)));
+                    return Err((v, format!("FixWord({v}) prints as {buf:?}; pl::File reads the {} back as {:?}", if as_dimens { "character dimension" } else { "parameter" }, p)));
                 }
             }
             t.evals += vals.len() as u64;
             t.nontrivial += nt;
+            t.class(if as_dimens { "read back as CHARWD/CHARHT/CHARDP/CHARIC" } else { "read back as PARAMETER" }, vals.len() as u64);
+            t.class("negative", neg);
+            t.class("|value|>=16.0", big);
+            Ok(())
+        },
+        fix_single,
+    );
+
+    // The property-list writer (File::display), re-read.
+    let n_mixed = ctx.tier.pick(150_000u64, 3_000_000u64);
+    let plan3 = Plan::new(vec![Seg::List(edges), Seg::Mixed { n: n_mixed, salt: salt ^ 0x3333_CCCC }]);
+    const B3: u64 = WRITER_BATCH as u64;
+    hot_loop(
+        ctx,
+        "fixword_text_writer",
+        plan3.total.div_ceil(B3),
+        false,
+        |j, t: &mut Tally| {
+            let lo = j * B3;
+            let hi = ((j + 1) * B3).min(plan3.total);
+            let mut vals: Vec<i32> = vec![];
+            let (mut nt, mut neg, mut big) = (0u64, 0u64, 0u64);
+            for i in lo..hi {
+                let (v, fresh) = plan3.at(i);
+                if v == i32::MIN {
+                    continue; // see fixword_text
+                }
+                vals.push(v);
+                if fresh && v & 0xFFFFF != 0 {
+                    nt += 1;
+                }
+                neg += (v < 0) as u64;
+                big += !(-(1 << 24)..(1 << 24)).contains(&v) as u64;
+            }
+            let format = [tfm::pl::CharDisplayFormat::Default, tfm::pl::CharDisplayFormat::Ascii, tfm::pl::CharDisplayFormat::Octal][(j % 3) as usize];
+            let info = match writer_round_trip(&vals, format) {
+                Ok(i) => i,
+                Err(e) => return Err(pinpoint(&vals, format!("PL writer, batch of {} values written as one file: {e}", vals.len()))),
+            };
+            t.evals += vals.len() as u64;
+            t.nontrivial += nt;
+            let n = vals.len();
+            t.class("written as FONTDIMEN parameter", n.min(WRITER_PARAMS) as u64);
+            t.class("written as CHARWD/CHARHT/CHARDP/CHARIC", n.saturating_sub(WRITER_PARAMS).min(4 * WRITER_CHARS) as u64);
+            t.class("written as KRN", n.saturating_sub(WRITER_PARAMS + 4 * WRITER_CHARS) as u64);
+            t.class("written as DESIGNSIZE", info.design_size as u64);
+            t.class("files whose re-reading gives warnings (values still identical)", (info.reader_warnings > 0) as u64);
+            t.class("negative", neg);
+            t.class("|value|>=16.0", big);
             Ok(())
         },
         fix_single,
@@ -601,7 +1068,16 @@ fn scaled_grid() -> (Vec<i32>, Vec<i32>) {
     for x in [11_482_955i64, 12_582_912 + 7, 26_089_779, 10_485_760 + 8] {
         ds.push(x);
     }
-    let mut ds: Vec<i32> = ds.into_iter().filter(|x| ((1 << 20)..(1i64 << 31)).contains(x)).map(|x| x as i32).collect();
+    // `at` sizes below 1pt (TeX 568 accepts every 0 < s < 2048pt): z = word div 16 in [1, 2^16)
+    for e in 4..=19 {
+        let p = 1i64 << e;
+        for d in [0i64, 1, 15, 16, 17] {
+            ds.push(p + d);
+            ds.push(2 * p - 1 - d);
+        }
+        ds.push(p + p / 3);
+    }
+    let mut ds: Vec<i32> = ds.into_iter().filter(|x| (16..(1i64 << 31)).contains(x)).map(|x| x as i32).collect();
     ds.sort_unstable();
     ds.dedup();
     (vs, ds)
@@ -612,6 +1088,7 @@ struct ScaledInfo {
     negative: bool,
     halvings: u32,
     exact: bool,
+    below_1pt: bool,
 }
 
 fn check_to_scaled(v: i32, ds: i32) -> Result<ScaledInfo, String> {
@@ -619,7 +1096,10 @@ fn check_to_scaled(v: i32, ds: i32) -> Result<ScaledInfo, String> {
         Ok(s) => s.0 as i64,
         Err(p) => return Err(format!("FixWord({v}).to_scaled(FixWord({ds})) panics at {}: {}", p.site(), p.message)),
     };
-    let sc = ma::tex_scale(ds).ok_or_else(|| format!("reference: TeX would abort on design size word {ds}"))?;
+    // Design sizes are at least 1pt (TeX 568 aborts below); a smaller word can only be an `at`
+    // size, which TeX 568 substitutes for z before the same 571-572 arithmetic runs.
+    let sc = if ds >= 1 << 20 { ma::tex_scale(ds) } else { ma::tex_scale_at((ds / 16) as i64) };
+    let sc = sc.ok_or_else(|| format!("reference: TeX would abort on size word {ds}"))?;
     let want = ma::store_scaled(v, &sc).ok_or_else(|| format!("reference: store_scaled aborts on word {v}"))?;
     let (want2, exact) = ma::store_scaled_i128(v, ds).ok_or_else(|| format!("reference: closed form undefined for ({v},{ds})"))?;
     if want as i128 != want2 {
@@ -631,7 +1111,7 @@ fn check_to_scaled(v: i32, ds: i32) -> Result<ScaledInfo, String> {
             sc.z, sc.alpha, sc.beta
         ));
     }
-    Ok(ScaledInfo { negative: v < 0, halvings: sc.halvings, exact })
+    Ok(ScaledInfo { negative: v < 0, halvings: sc.halvings, exact, below_1pt: ds < 1 << 20 })
 }
 
 const HALVING_CLASSES: [&str; 5] = ["beta=16 (design size < 128pt)", "beta=8", "beta=4", "beta=2", "beta=1 (design size >= 1024pt)"];
@@ -640,7 +1120,9 @@ fn run_to_scaled(ctx: &Ctx) {
     let (gv, gd) = scaled_grid();
     let grid = (gv.len() * gd.len()) as u64;
     let random = ctx.tier.pick(50_000_000u64, 1_000_000_000u64);
-    let total = grid + random;
+    // additional pairs with an `at` size below 1pt, 16 magnitude classes of the size word
+    let random_low = ctx.tier.pick(4_000_000u64, 80_000_000u64);
+    let total = grid + random + random_low;
     let salt = mix(ctx.seed, 0xC17B);
     let pair_at = |i: u64| -> (i32, i32, bool) {
         if i < grid {
@@ -648,8 +1130,8 @@ fn run_to_scaled(ctx: &Ctx) {
             (gv[a], gd[b], true)
         } else {
             let i = i - grid;
-            let e = 20 + (i % 11) as u32; // magnitude class of the design size: [2^e, 2^(e+1))
-            let j = i / 11;
+            // magnitude class of the size word: [2^e, 2^(e+1))
+            let (e, j) = if i < random { (20 + (i % 11) as u32, i / 11) } else { (4 + ((i - random) % 16) as u32, (i - random) / 16) };
             let h = bij(j, 25 + e, salt);
             let v = (h & ((1 << 25) - 1)) as i64 - (1 << 24);
             let ds = (1i64 << e) + (h >> 25) as i64;
@@ -669,11 +1151,12 @@ fn run_to_scaled(ctx: &Ctx) {
             let lo = j * B;
             let hi = ((j + 1) * B).min(total);
             let mut halv = [0u64; 5];
-            let (mut neg, mut exact, mut nt) = (0u64, 0u64, 0u64);
+            let (mut neg, mut exact, mut nt, mut low) = (0u64, 0u64, 0u64, 0u64);
             for i in lo..hi {
                 let (v, ds, fresh) = pair_at(i);
                 let info = check_to_scaled(v, ds).map_err(|e| ((v, ds), e))?;
                 halv[info.halvings.min(4) as usize] += 1;
+                low += info.below_1pt as u64;
                 if info.negative {
                     neg += 1;
                 }
@@ -693,10 +1176,11 @@ fn run_to_scaled(ctx: &Ctx) {
             }
             t.class("negative value", neg);
             t.class("no truncation (trivial)", exact);
+            t.class("size below 1pt (an `at` size, z < 2^16)", low);
             Ok(())
         },
         |&(v, ds): &(i32, i32)| {
-            if !(-(1 << 24)..(1 << 24)).contains(&v) || ds < (1 << 20) {
+            if !(-(1 << 24)..(1 << 24)).contains(&v) || ds < 16 {
                 return Verdict::Skip("outside TeX's legal ranges");
             }
             match check_to_scaled(v, ds) {
@@ -723,6 +1207,8 @@ fn clamp_legal(x: i64) -> i32 {
     x.clamp(-(LEGAL as i64) + 1, LEGAL as i64 - 1) as i32
 }
 
+const FIX_MAX: i32 = i32::MAX; // 2047.999999..., the largest PL real
+
 fn compress_strategy() -> impl Strategy<Value = CompressCase> {
     let small = vec(-24i32..=24, 0..=300);
     let lattice = (1i32..=2000, -60i32..=60, vec((0i32..=80, 0u8..=9), 0..=300)).prop_map(|(step, off, ks)| {
@@ -734,12 +1220,63 @@ fn compress_strategy() -> impl Strategy<Value = CompressCase> {
     let wide = vec(-LEGAL + 1..LEGAL, 0..=300);
     // dimensions as PL files have them: thousandths of the design size, rounded to fix_words
     let afm = vec(-300i32..=1000, 0..=300).prop_map(|ks| ks.into_iter().map(|k| ((k as i64 * (1 << 20) + if k >= 0 { 500 } else { -500 }) / 1000) as i32).collect::<Vec<i32>>());
+    // --- raw PL reals, as `From<pl::File>` passes them (DESIGNUNITS is not applied before the
+    // tables are compressed, in PLtoTF as well): magnitudes up to 2047.999999, 33-bit differences
+    // the whole 32-bit range
+    let full = vec(-FIX_MAX..=FIX_MAX, 0..=300);
+    // (DESIGNUNITS R 1000): integers and halves of AFM units
+    let units = vec((-300i32..=1000, 0u8..=7), 0..=300).prop_map(|ks| ks.into_iter().map(|(k, h)| k * (1 << 20) + if h == 0 { 1 << 19 } else { 0 }).collect::<Vec<i32>>());
+    // clusters at the ends and in the middle of the range: gaps of about 2^30, 2^31 and 2^32,
+    // among them pairs exactly 2^31-1 apart
+    let anchors: [i64; 9] = [-(FIX_MAX as i64), -(1 << 30), -(1 << 30) - 1, -1, 0, 1 << 30, (1 << 30) - 1, FIX_MAX as i64 - (1 << 30), FIX_MAX as i64];
+    let extremes = vec((0usize..9, 0i64..=40, 0u8..=3), 0..=300).prop_map(move |pts| {
+        pts.into_iter()
+            .map(|(a, o, z)| {
+                let o = if z == 0 { 0 } else { o };
+                let x = if anchors[a] > 0 { anchors[a] - o } else { anchors[a] + o };
+                x.clamp(-(FIX_MAX as i64), FIX_MAX as i64) as i32
+            })
+            .collect::<Vec<i32>>()
+    });
+    // pairs (x, x + 2^31 - 1): the tolerance 2^31-1 is the largest a 32-bit word can hold
+    let max_gap = (vec((-FIX_MAX..=0, 0i32..=3), 1..=6), vec(-FIX_MAX..=FIX_MAX, 0..=6)).prop_map(|(pairs, others)| {
+        let mut v = others;
+        for (x, o) in pairs {
+            v.push(x);
+            v.push((x as i64 + FIX_MAX as i64 - o as i64) as i32);
+        }
+        v
+    });
+    // the word i32::MIN (-2048.0): cannot come from a PL file but is a FixWord
+    let with_min = (vec(any::<i32>(), 0..=40), vec(-8i32..=8, 0..=8)).prop_map(|(mut v, near)| {
+        v.push(i32::MIN);
+        v.extend(near.into_iter().map(|o| if o < 0 { i32::MAX + o } else { i32::MIN + o }));
+        v
+    });
+    // more than 255 distinct values: increasing by construction, then shuffled. This is what
+    // `compress(widths, 255)` sees for a font whose 256 characters all differ in width.
+    let many_distinct = (-(1i64 << 24)..(1i64 << 23), vec(1i64..=3000, 256..=300), any::<bool>())
+        .prop_map(|(start, gaps, big)| {
+            let mut x = start;
+            gaps.into_iter()
+                .map(|g| {
+                    x += if big { g * 2000 } else { g };
+                    x as i32
+                })
+                .collect::<Vec<i32>>()
+        })
+        .prop_shuffle();
     let values = prop_oneof![
         3 => small,
         3 => lattice,
         2 => clustered,
         2 => wide,
         2 => afm,
+        2 => full,
+        2 => units,
+        2 => extremes,
+        1 => max_gap,
+        1 => with_min,
     ];
     let limit = prop_oneof![
         3 => 1u8..=8,
@@ -750,7 +1287,13 @@ fn compress_strategy() -> impl Strategy<Value = CompressCase> {
     ];
     // Heights, depths and italic corrections of real fonts are mostly non-negative: half of
     // the cases use magnitudes only.
-    (values, limit, any::<bool>()).prop_map(|(values, limit, magnitudes)| CompressCase { values: if magnitudes { values.into_iter().map(|v| v.abs()).collect() } else { values }, limit })
+    let general = (values, limit, any::<bool>())
+        .prop_map(|(values, limit, magnitudes)| CompressCase { values: if magnitudes { values.into_iter().map(|v| v.saturating_abs()).collect() } else { values }, limit });
+    let widths = (many_distinct, prop_oneof![3 => Just(255u8), 2 => 128u8..=255, 1 => 1u8..=255]).prop_map(|(values, limit)| CompressCase { values, limit });
+    prop_oneof![
+        10 => general,
+        1 => widths,
+    ]
 }
 
 #[derive(Debug, Default)]
@@ -849,8 +1392,8 @@ fn compress_oracle(ctx: &Ctx, c: &CompressCase, case: &mut Case) -> Verdict {
     if c.limit == 0 {
         return Verdict::Skip("class limit 0 is outside 1..=255");
     }
-    if c.values.len() > 300 || c.values.iter().any(|v| *v <= -LEGAL || *v >= LEGAL) {
-        return Verdict::Skip("outside the stated domain (<=300 values, |value| < 16.0)");
+    if c.values.len() > 300 {
+        return Verdict::Skip("outside the stated domain (<=300 values)");
     }
     let limit = c.limit as usize;
     let input: Vec<FixWord> = c.values.iter().map(|v| FixWord(*v)).collect();
@@ -858,8 +1401,8 @@ fn compress_oracle(ctx: &Ctx, c: &CompressCase, case: &mut Case) -> Verdict {
     let (table, map) = match guarded(move || tfm::compress(&input, lim)) {
         Guarded::Done(r) => r,
         Guarded::Panicked(p) => return Verdict::Fail(format!("compress(values, {}) panics at {}: {}\nvalues: {:?}", c.limit, p.site(), p.message, c.values)),
-        Guarded::TimedOut => return Verdict::Fail(format!("compress(values, {}) did not return within {WATCHDOG_SECS} s (it normally takes microseconds): it does not terminate\nvalues: {:?}", c.limit, c.values)),
-        Guarded::NotCalled => return Verdict::Skip("an earlier call did not terminate; the function is not called again in this process"),
+        Guarded::TimedOut(cpu) => return Verdict::Fail(format!("compress(values, {}) has not returned after {cpu} s of CPU time (it normally takes microseconds): it does not terminate\nvalues: {:?}", c.limit, c.values)),
+        Guarded::NotCalled => return skipped_after_hang(case),
     };
     let sorted: Vec<i64> = c.values.iter().map(|v| *v as i64).collect::<BTreeSet<i64>>().into_iter().collect();
     let n = sorted.len();
@@ -870,17 +1413,42 @@ fn compress_oracle(ctx: &Ctx, c: &CompressCase, case: &mut Case) -> Verdict {
     case.class_if(n < c.values.len(), "has duplicates");
     case.class_if(sorted.first().is_some_and(|v| *v < 0), "has negative values");
     case.class_if(n >= 100, "distinct>=100");
+    case.class_if(n > 255, "distinct>255");
+    case.class_if(n > limit && limit >= 128, "needs compression with limit>=128");
+    case.class_if(n > limit && limit == 255, "needs compression with limit=255 (widths)");
+    case.class_if(n > limit && (limit == 15 || limit == 63), "needs compression with limit 15 or 63 (heights, depths, italics)");
+    let outside = sorted.first().is_some_and(|v| *v <= -(LEGAL as i64)) || sorted.last().is_some_and(|v| *v >= LEGAL as i64);
+    let range = sorted.last().copied().unwrap_or(0) - sorted.first().copied().unwrap_or(0);
+    case.class_if(outside, "has |value|>=16.0 (raw PL real)");
+    case.class_if(outside && n > limit, "has |value|>=16.0 and needs compression");
+    case.class_if(range > i32::MAX as i64, "range needs 33 bits");
+    case.class_if(range > i32::MAX as i64 && n > limit && limit >= 2, "range needs 33 bits, needs compression, limit>=2");
+    case.class_if(sorted.first() == Some(&(i32::MIN as i64)), "contains i32::MIN");
     case.note = Some(format!("limit {} for {} values ({} distinct): {:?}", c.limit, c.values.len(), n, c.values));
 
     let info = match compress_valid(&sorted, limit, &table, &index_of) {
         Ok(i) => i,
         Err(e) => return Verdict::Fail(format!("compress(values, {}) is not a valid answer: {e}\nvalues (sorted, distinct): {:?}\ntable: {:?}", c.limit, sorted, table)),
     };
-    // PLtoTF's own search must find the same tolerance as the brute-force definition.
-    let d_knuth = ma::shorten(&sorted, limit);
-    if d_knuth != info.dstar {
-        return Verdict::Fail(format!("reference self-check: PLtoTF shorten gives {d_knuth}, brute force gives {} for {:?} limit {limit}", info.dstar, sorted));
+    // PLtoTF's own search must find the same tolerance as the brute-force definition. (A
+    // cross-check between two references; its linear search costs up to n^3 steps, so above 100
+    // distinct values it runs on every fourth case, chosen by the case's content.)
+    if n <= 100 || fnv64(&sorted.iter().flat_map(|v| v.to_le_bytes()).collect::<Vec<u8>>()) % 4 == 0 {
+        let d_knuth = ma::shorten(&sorted, limit);
+        if d_knuth != info.dstar {
+            return Verdict::Fail(format!("reference self-check: PLtoTF shorten gives {d_knuth}, brute force gives {} for {:?} limit {limit}", info.dstar, sorted));
+        }
+        case.class("reference tolerance cross-checked with PLtoTF 76 shorten");
     }
+    // For small inputs: the tolerance straight from the statement (every cutting into runs).
+    if let Some(d_def) = ma::smallest_tolerance_by_enumeration(&sorted, limit).filter(|_| n <= 12) {
+        if d_def != info.dstar {
+            return Verdict::Fail(format!("reference self-check: enumeration of all cuttings gives tolerance {d_def}, greedy brute force gives {} for {:?} limit {limit}", info.dstar, sorted));
+        }
+        case.class("tolerance confirmed by enumerating every cutting (n<=12)");
+    }
+    case.class_if(info.dstar >= i32::MAX as i64 && limit >= 2, "smallest tolerance >= 2^31-1 with limit>=2");
+    case.class_if(info.dstar > (1 << 30) && n > limit, "smallest tolerance > 2^30");
     case.class_if(info.odd_negative_sum_class, "class with odd negative l+u");
     if n > limit {
         case.class_if(info.classes < limit, "fewer classes than the limit");
@@ -921,6 +1489,176 @@ fn compress_small_case(i: u64) -> CompressCase {
     CompressCase { values, limit }
 }
 
+/// Second exhaustive scope, raw PL reals: both ends of the 32-bit range (with i32::MIN), the
+/// middle, and points 2^30 and 2^31-1 apart, so that gaps, tolerances and sums need 33 bits.
+const WIDE_UNIVERSE: [i32; 12] =
+    [-i32::MAX, 0, i32::MAX, -(1 << 30) - 1, -(1 << 30), -1, 1, (1 << 30) - 1, 1 << 30, (1 << 30) + 2, i32::MAX - 1, i32::MIN];
+
+fn compress_small_wide_case(i: u64) -> CompressCase {
+    let subset = i % (1 << 12);
+    let limit = (i >> 12) as u8 + 1;
+    let values = (0..12).filter(|b| subset >> b & 1 == 1).map(|b| WIDE_UNIVERSE[b]).collect();
+    CompressCase { values, limit }
+}
+
+// ------------------------------------------------------------------------------------
+// (c') compress as its production caller uses it: PL text -> pl::File -> tfm::File. The four
+// tables of the TFM file are compress(widths, 255), compress(heights, 15), compress(depths, 15),
+// compress(italic corrections, 63) of the RAW reals of the PL file (PLtoTF 75-80 works on the
+// values as written too; DESIGNUNITS only matters when the words are output).
+
+#[derive(Clone, Debug, Serialize, Deserialize)]
+pub struct PlCallerCase {
+    /// (DESIGNUNITS R n), 0 = no such property
+    pub design_units: u16,
+    /// per character (code = position): width, height, depth, italic correction as fix_words
+    /// (a dimension equal to i32::MIN is not written)
+    pub chars: Vec<[i32; 4]>,
+}
+
+fn pl_caller_strategy() -> impl Strategy<Value = PlCallerCase> {
+    // one generator of dimension values per column; few distinct values (no compression), AFM
+    // units, the whole PL range, and the ends of the range
+    fn column(n: usize) -> impl Strategy<Value = Vec<i32>> {
+        prop_oneof![
+            2 => (vec(-FIX_MAX..=FIX_MAX, 1..=6), vec(any::<u16>(), n)).prop_map(|(pool, picks)| picks.into_iter().map(|p| pool[pick_idx(p, pool.len())]).collect::<Vec<i32>>()),
+            3 => vec((-300i32..=1000, 0u8..=5), n).prop_map(|ks| ks.into_iter().map(|(k, h)| k * (1 << 20) + if h == 0 { 1 << 19 } else { 0 }).collect::<Vec<i32>>()),
+            2 => vec(-FIX_MAX..=FIX_MAX, n),
+            2 => vec(-LEGAL + 1..LEGAL, n),
+            1 => vec((0u8..=4, 0i32..=30), n).prop_map(|ks| ks.into_iter().map(|(a, o)| match a { 0 => -FIX_MAX + o, 1 => FIX_MAX - o, 2 => o - 15, 3 => (1 << 30) + o, _ => -(1 << 30) - o }).collect::<Vec<i32>>()),
+            1 => Just(vec![0; n]),
+        ]
+    }
+    prop_oneof![3 => 1usize..=40, 2 => 41usize..=255, 3 => Just(256usize)].prop_flat_map(|n| {
+        (prop_oneof![2 => Just(0u16), 2 => Just(1000u16), 1 => 1u16..=2047], column(n), column(n), column(n), column(n), any::<bool>()).prop_map(|(design_units, w, h, d, i, magnitudes)| {
+            let f = |x: i32| if magnitudes { x.saturating_abs() } else { x };
+            PlCallerCase { design_units, chars: (0..w.len()).map(|k| [w[k], f(h[k]), f(d[k]), i[k]]).collect() }
+        })
+    })
+}
+
+fn pl_caller_oracle(c: &PlCallerCase, case: &mut Case) -> Verdict {
+    if c.chars.len() > 256 {
+        return Verdict::Skip("more than 256 characters");
+    }
+    // The PL text is written with the reference printer (TFtoPL 40-43), not with the code under test.
+    let mut src = String::new();
+    if c.design_units > 0 {
+        let _ = writeln!(src, "(DESIGNUNITS R {}.0)", c.design_units);
+    }
+    const DIMS: [&str; 4] = ["CHARWD", "CHARHT", "CHARDP", "CHARIC"];
+    let mut mb = vec![];
+    for (code, dims) in c.chars.iter().enumerate() {
+        let _ = writeln!(src, "(CHARACTER D {code}");
+        for (k, v) in dims.iter().enumerate() {
+            if *v == i32::MIN {
+                continue;
+            }
+            mb.clear();
+            if let Err(e) = ma::out_fix(*v, &mut mb) {
+                return Verdict::Fail(format!("reference: {e}"));
+            }
+            let _ = writeln!(src, "   ({} R {})", DIMS[k], String::from_utf8_lossy(&mb));
+        }
+        src.push_str("   )\n");
+    }
+    let (pl, _warnings) = match panics::catch(|| tfm::pl::File::from_pl_source_code(&src)) {
+        Ok(r) => r,
+        Err(p) => return Verdict::Fail(format!("pl::File reader panics at {}: {}\n{}", p.site(), p.message, src)),
+    };
+    // The multisets handed to compress are those the reader produced (what (a) is about is not
+    // decided again here).
+    let read: BTreeMap<u8, [Option<i32>; 4]> = pl.char_dimens.iter().map(|(ch, d)| (ch.0, [d.width.map(|f| f.0), d.height.map(|f| f.0), d.depth.map(|f| f.0), d.italic_correction.map(|f| f.0)])).collect();
+    if read.len() != c.chars.len() {
+        return Verdict::Fail(format!("{} CHARACTER lists written, pl::File has {} characters\n{}", c.chars.len(), read.len(), src));
+    }
+    let tfm_file = match guarded(move || tfm::File::from(pl)) {
+        Guarded::Done(f) => f,
+        Guarded::Panicked(p) => return Verdict::Fail(format!("tfm::File::from(pl::File) panics at {}: {}\n{}", p.site(), p.message, src)),
+        Guarded::TimedOut(cpu) => return Verdict::Fail(format!("tfm::File::from(pl::File) has not returned after {cpu} s of CPU time: it does not terminate\n{}", src)),
+        Guarded::NotCalled => return skipped_after_hang(case),
+    };
+    const LIMITS: [usize; 4] = [255, 15, 15, 63];
+    const NAMES: [&str; 4] = ["width", "height", "depth", "italic correction"];
+    let mut any_compression = false;
+    for k in 0..4 {
+        let table: Vec<i64> = [&tfm_file.widths, &tfm_file.heights, &tfm_file.depths, &tfm_file.italic_corrections][k].iter().map(|f| f.0 as i64).collect();
+        // PLtoTF 74 (sort_in): a zero height, depth or italic correction is not entered in its
+        // list and has index 0; every width is entered (a missing CHARWD counts as width 0).
+        let mut index_of: BTreeMap<i64, usize> = BTreeMap::new();
+        let mut values: BTreeSet<i64> = BTreeSet::new();
+        for (code, dims) in &read {
+            let v = match (k, dims[k]) {
+                (0, v) => v.unwrap_or(0) as i64,
+                (_, v) => v.unwrap_or(0) as i64,
+            };
+            let Some(cd) = tfm_file.char_dimens.get(&Char(*code)) else {
+                return Verdict::Fail(format!("character {code} of the PL file is missing from the TFM file\n{src}"));
+            };
+            let idx = match k {
+                0 => match cd.width_index {
+                    tfm::WidthIndex::Valid(i) => i.get() as usize,
+                    _ => return Verdict::Fail(format!("character {code} has no valid width index\n{src}")),
+                },
+                1 => cd.height_index as usize,
+                2 => cd.depth_index as usize,
+                _ => cd.italic_index as usize,
+            };
+            if k > 0 && v == 0 {
+                if idx != 0 {
+                    return Verdict::Fail(format!("character {code}: {} 0 has index {idx}, PLtoTF 74 gives index 0\n{src}", NAMES[k]));
+                }
+                continue;
+            }
+            values.insert(v);
+            if let Some(prev) = index_of.insert(v, idx) {
+                if prev != idx {
+                    return Verdict::Fail(format!("{} {v} has index {prev} for one character and {idx} for character {code}\n{src}", NAMES[k]));
+                }
+            }
+        }
+        let sorted: Vec<i64> = values.into_iter().collect();
+        if table.is_empty() {
+            return Verdict::Fail(format!("{} table of the TFM file is empty (entry 0 must be 0)\n{src}", NAMES[k]));
+        }
+        let numeric = match compress_valid(&sorted, LIMITS[k], &table, &index_of) {
+            Ok(info) => match info.bad_midpoints.first() {
+                None => Ok(()),
+                Some(&(l, u, rep)) => Err(format!("class [{l}, {u}] is represented by {rep}; PLtoTF 78 stores l+(u-l) div 2 = {}", ma::midpoint(l, u, ma::Midpoint::PlToTf))),
+            },
+            Err(e) => Err(e),
+        };
+        if let Err(e) = numeric {
+            if c.design_units == 0 {
+                return Verdict::Fail(format!("{} table of tfm::File::from(pl::File) is not a valid compression with limit {}: {e}\nvalues (sorted, distinct): {:?}\ntable: {:?}", NAMES[k], LIMITS[k], sorted, table));
+            }
+            // With DESIGNUNITS the words of the TFM file are the representatives divided by the
+            // design units (PLtoTF 128 out_scaled, in Pascal real arithmetic, not modelled here).
+            // The repository stores the raw representatives at the time of writing, which the
+            // numeric predicate above accepts; should it start to scale them, only what scaling
+            // preserves is demanded: the number of classes and their order.
+            let kk = table.len() - 1;
+            let idx: Vec<usize> = sorted.iter().map(|v| index_of[v]).collect();
+            let ordered = idx.windows(2).all(|w| w[0] <= w[1]) && idx.iter().all(|i| (1..=kk).contains(i));
+            if kk > LIMITS[k] || !ordered || table[0] != 0 {
+                return Verdict::Fail(format!("{} table of tfm::File::from(pl::File) with DESIGNUNITS: {kk} classes for limit {}, indices in value order {:?}; as a compression of the raw values: {e}\nvalues (sorted, distinct): {:?}\ntable: {:?}", NAMES[k], LIMITS[k], idx, sorted, table));
+            }
+            case.class("DESIGNUNITS given and table is not a compression of the raw values (scaled?): class count and order checked only");
+        } else if c.design_units > 0 {
+            case.class("DESIGNUNITS given: table is a valid compression of the raw values");
+        }
+        let needs = sorted.len() > LIMITS[k];
+        any_compression |= needs;
+        case.class_if(needs, ["widths need compression (256 distinct)", "heights need compression", "depths need compression", "italic corrections need compression"][k]);
+        case.class_if(needs && sorted.iter().any(|v| v.abs() >= LEGAL as i64), "table with |value|>=16.0 needs compression");
+        case.class_if(needs && sorted.last().unwrap() - sorted.first().unwrap() > i32::MAX as i64, "table whose range needs 33 bits needs compression");
+    }
+    case.class_if(c.design_units > 0, "DESIGNUNITS given");
+    case.class_if(c.chars.len() == 256, "256 characters");
+    case.note = Some(format!("DESIGNUNITS {} and {} characters: {:?}", c.design_units, c.chars.len(), &c.chars[..c.chars.len().min(6)]));
+    Verdict::pass(any_compression)
+}
+
 // ------------------------------------------------------------------------------------
 // (d) next larger
 
@@ -933,6 +1671,61 @@ pub struct NlCase {
     /// characters without a CHARACTER entry (unless they carry a link themselves)
     pub missing: Vec<u8>,
     pub drop_missing: bool,
+    /// explicit links (character, its NEXTLARGER) in the order they are handed over, used after
+    /// those of `links`; a character listed twice keeps its first link. (Absent in replay files
+    /// written before this field existed.)
+    #[serde(default)]
+    pub direct: Vec<(u8, u8)>,
+}
+
+/// Long chains and cycles: a random arrangement of all 256 codes (or a prefix of it) is cut
+/// into 1..=4 pieces; each piece becomes a path, a cycle, or a path whose end links back into
+/// the piece (a tail leading into a cycle); the links are handed over in shuffled order.
+fn nl_long_strategy() -> impl Strategy<Value = NlCase> {
+    let codes: Vec<u8> = (0..=255u8).collect();
+    (
+        Just(codes).prop_shuffle(),
+        prop_oneof![3 => Just(256usize), 1 => Just(255usize), 2 => 130usize..=256],
+        vec((any::<u16>(), 0u8..=2, any::<u16>()), 0..=3),
+        any::<u64>(),
+        vec(any::<u8>(), 0..=3),
+        any::<bool>(),
+        any::<bool>(),
+    )
+        .prop_map(|(perm, used, cuts, order_salt, missing, drop_missing, sorted_order)| {
+            let perm = &perm[..used];
+            // piece boundaries
+            let mut bounds: Vec<usize> = cuts.iter().map(|c| 1 + pick_idx(c.0, used - 1)).collect();
+            bounds.push(used);
+            bounds.sort_unstable();
+            bounds.dedup();
+            let mut direct: Vec<(u8, u8)> = vec![];
+            let mut lo = 0usize;
+            for (k, &hi) in bounds.iter().enumerate() {
+                let piece = &perm[lo..hi];
+                for w in piece.windows(2) {
+                    direct.push((w[0], w[1]));
+                }
+                let (_, kind, back) = cuts.get(k).copied().unwrap_or((0, (order_salt >> 60) as u8 % 3, (order_salt >> 40) as u16));
+                match kind {
+                    0 => {}                                                                   // a path
+                    1 => direct.push((piece[piece.len() - 1], piece[0])),                      // a cycle
+                    _ => direct.push((piece[piece.len() - 1], piece[pick_idx(back, piece.len())])), // a tail into a cycle
+                }
+                lo = hi;
+            }
+            // order in which the links reach the constructor: by character (as `from_ast`
+            // iterates a BTreeMap) or shuffled by a bijection on positions
+            if sorted_order {
+                direct.sort_unstable();
+            } else {
+                let n = direct.len() as u64;
+                let mut keyed: Vec<(u64, (u8, u8))> = direct.iter().enumerate().map(|(i, e)| (mix(order_salt, i as u64) % (4 * n.max(1)) * 1024 + i as u64, *e)).collect();
+                keyed.sort_unstable();
+                direct = keyed.into_iter().map(|k| k.1).collect();
+            }
+            NlCase { links: vec![], missing, drop_missing, direct }
+        })
 }
 
 fn nl_strategy() -> impl Strategy<Value = NlCase> {
@@ -946,7 +1739,11 @@ fn nl_strategy() -> impl Strategy<Value = NlCase> {
         3 => vec(entry.clone(), 0..=80),
         2 => vec(entry, 150..=400),
     ];
-    (links, vec(any::<u8>(), 0..=6), any::<bool>()).prop_map(|(links, missing, drop_missing)| NlCase { links, missing, drop_missing })
+    let general = (links, vec(any::<u8>(), 0..=6), any::<bool>()).prop_map(|(links, missing, drop_missing)| NlCase { links, missing, drop_missing, direct: vec![] });
+    prop_oneof![
+        15 => general,
+        1 => nl_long_strategy(),
+    ]
 }
 
 struct NlBuilt {
@@ -970,6 +1767,12 @@ fn nl_build(c: &NlCase) -> NlBuilt {
         };
         order.push((src, tgt));
     }
+    for &(src, tgt) in &c.direct {
+        if !has[src as usize] {
+            has[src as usize] = true;
+            order.push((src, tgt));
+        }
+    }
     let mut exists = [true; 256];
     for &m in &c.missing {
         exists[m as usize] = false;
@@ -985,7 +1788,7 @@ fn nl_check(order: &[(u8, u8)], exists: &[bool; 256], drop_missing: bool, case: 
     let (program, warnings) = match guarded(move || NextLargerProgram::new(o2.iter().map(|&(a, b)| (Char(a), Char(b))), |c| e2[c.0 as usize], drop_missing)) {
         Guarded::Done(r) => r,
         Guarded::Panicked(p) => return Err(format!("NextLargerProgram::new panics at {}: {}\nlinks {:?} drop={drop_missing}", p.site(), p.message, order)),
-        Guarded::TimedOut => return Err(format!("NextLargerProgram::new did not return within {WATCHDOG_SECS} s: it does not terminate\nlinks {:?} drop={drop_missing}", order)),
+        Guarded::TimedOut(cpu) => return Err(format!("NextLargerProgram::new has not returned after {cpu} s of CPU time: it does not terminate\nlinks {:?} drop={drop_missing}", order)),
         Guarded::NotCalled => return Ok(None),
     };
 
@@ -1038,6 +1841,7 @@ fn nl_check(order: &[(u8, u8)], exists: &[bool; 256], drop_missing: bool, case: 
         return Err(format!("warnings about absent characters {:?}, expected {:?}\n{}", got_missing, want_missing, describe()));
     }
     let mut tail_into_cycle = false;
+    let mut longest_chain = 0usize;
     let on_cycle: BTreeSet<u8> = cyc.iter().flatten().copied().collect();
     for c in 0..=255u8 {
         let got: Vec<u8> = program.get(Char(c)).take(300).map(|c| c.0).collect();
@@ -1051,7 +1855,26 @@ fn nl_check(order: &[(u8, u8)], exists: &[bool; 256], drop_missing: bool, case: 
         if !on_cycle.contains(&c) && want.iter().any(|x| on_cycle.contains(x)) {
             tail_into_cycle = true;
         }
+        longest_chain = longest_chain.max(want.len());
     }
+    // characters that are the NEXTLARGER of another one after cutting: each of them needs an
+    // entry of the compiled program
+    let entries = cut_links.iter().flatten().collect::<BTreeSet<_>>().len();
+    let linked = links.iter().flatten().count();
+    let longest_cycle = cyc.iter().map(|m| m.len()).max().unwrap_or(0);
+    case.class_if(longest_chain >= 60, "chain length>=60");
+    case.class_if(longest_chain >= 128, "chain length>=128");
+    case.class_if(longest_chain >= 200, "chain length>=200");
+    case.class_if(longest_chain == 255, "chain length=255 (the maximum)");
+    case.class_if(entries >= 128, "program entries>=128");
+    case.class_if(entries >= 200, "program entries>=200");
+    case.class_if(entries == 255, "program entries=255 (the maximum)");
+    case.class_if(longest_cycle >= 60, "cycle of length>=60");
+    case.class_if(longest_cycle >= 128, "cycle of length>=128");
+    case.class_if(longest_cycle == 256, "cycle through all 256 characters");
+    case.class_if(linked == 256, "every character has a link");
+    case.class_if(cyc.len() >= 2 && cyc.iter().filter(|m| m.len() >= 60).count() >= 2, "two cycles of length>=60");
+    case.class_if(tail_into_cycle && longest_chain >= 128 && longest_cycle >= 2, "long tail or long cycle with a tail");
     let big = cyc.iter().any(|m| m.len() >= 2);
     case.class_if(cyc.is_empty(), "no cycle");
     case.class_if(big, "cycle of length>=2");
@@ -1072,11 +1895,77 @@ fn nl_oracle(c: &NlCase, case: &mut Case) -> Verdict {
     }
     let b = nl_build(c);
     case.note = Some(format!("links {:?} absent {:?} drop={}", b.order, (0..=255u8).filter(|c| !b.exists[*c as usize]).collect::<Vec<u8>>(), c.drop_missing));
+    case.class_if(!c.direct.is_empty(), "shape: arrangement of all codes cut into paths/cycles/tails");
     match nl_check(&b.order, &b.exists, c.drop_missing, case) {
         Ok(Some(nt)) => Verdict::pass(nt),
-        Ok(None) => Verdict::Skip("an earlier call did not terminate; the function is not called again in this process"),
+        Ok(None) => skipped_after_hang(case),
         Err(e) => Verdict::Fail(e),
     }
+}
+
+/// Deterministic long shapes (`which` selects the shape, `par` a parameter of it): every one of
+/// them is also reachable by `nl_long_strategy`, here they are guaranteed.
+fn nl_long_fixed_case(i: u64) -> NlCase {
+    let (which, par) = (i % 8, (i / 8) as u8);
+    // code of position k: identity, reversed, or multiplied by an odd number (a bijection mod 256)
+    let code = |k: u8| -> u8 {
+        match par % 3 {
+            0 => k,
+            1 => 255 - k,
+            _ => k.wrapping_mul(par | 1).wrapping_add(par),
+        }
+    };
+    let mut direct: Vec<(u8, u8)> = vec![];
+    match which {
+        0 => (0..255u8).for_each(|k| direct.push((code(k), code(k + 1)))), // path through all 256
+        1 => (0..=255u8).for_each(|k| direct.push((code(k), code(k.wrapping_add(1))))), // 256-cycle
+        2 => {
+            // two cycles of 128
+            for k in 0..128u8 {
+                direct.push((code(k), code((k + 1) % 128)));
+                direct.push((code(128 + k), code(128 + (k + 1) % 128)));
+            }
+        }
+        3 => {
+            // tail of 255 into a self loop
+            (0..255u8).for_each(|k| direct.push((code(k), code(k + 1))));
+            direct.push((code(255), code(255)));
+        }
+        4 => {
+            // tail of (255 - par) into a cycle of par+1
+            (0..255u8).for_each(|k| direct.push((code(k), code(k + 1))));
+            direct.push((code(255), code(255 - par)));
+        }
+        5 => {
+            // star: everything links to one character, which links to itself or nothing
+            (0..255u8).for_each(|k| direct.push((code(k), code(255))));
+            if par % 2 == 0 {
+                direct.push((code(255), code(255)));
+            }
+        }
+        6 => {
+            // 128 two-cycles
+            for k in 0..128u8 {
+                direct.push((code(2 * k), code(2 * k + 1)));
+                direct.push((code(2 * k + 1), code(2 * k)));
+            }
+        }
+        _ => {
+            // two paths of 128 joining a third character chain: a tree with long branches
+            for k in 0..127u8 {
+                direct.push((code(k), code(k + 1)));
+                direct.push((code(128 + k), code(128 + k + 1)));
+            }
+            direct.push((code(127), code(255)));
+        }
+    }
+    if par % 2 == 1 {
+        direct.reverse();
+    }
+    if par % 5 == 2 {
+        direct.sort_unstable();
+    }
+    NlCase { links: vec![], missing: vec![], drop_missing: par % 4 < 2, direct }
 }
 
 /// Exhaustive small scope: 5 characters (codes not in index order), each without a link or
@@ -1319,17 +2208,22 @@ fn calibrate(ctx: &Ctx) {
 
 pub fn run(ctx: &Ctx) {
     ctx.rule(
-        "fixword_text: fix_word bit patterns enumerated by value (quick: |v|<2^22, multiples of 4099, +-2^k+-{0,1,2} and unit boundaries, a bijectively mixed sample; thorough: all 2^32-1), \
-         each printed, compared with TFtoPL 40-43 and read back through the PL reader in batches; non-trivial = non-zero fraction part, values counted once. \
-         to_scaled: edge grid x random (value, design size) pairs from a bijection per design-size magnitude; non-trivial = the product is truncated. \
-         compress: multisets from five shapes (small integers, lattices with equal gaps, clusters, wide, thousandths) x class limit; non-trivial = more distinct values than the limit. \
-         next_larger: partial functional graphs on character codes; non-trivial = a cycle of length>=2 or a tail leading into a cycle.",
+        "fixword_text: fix_word bit patterns enumerated by value (quick: |v|<2^22, multiples of 4099, +-2^k+-{0,1,2} and unit boundaries, a bijectively mixed sample; thorough: all 2^32-1, plus i32::MIN for Display), \
+         each printed, compared with TFtoPL 40-43 and read back through the PL reader in batches, the carrying node rotating per batch among PARAMETER, SLANT, KRN, CHARWD, CHARHT, DESIGNUNITS, DESIGNSIZE; \
+         fixword_text_file reads parameters and character dimensions through pl::File; fixword_text_writer renders a pl::File with the values (parameters, character dimensions, kerns, design size) through File::display and reads it again; \
+         non-trivial = non-zero fraction part, values counted once. \
+         to_scaled: edge grid x random (value, size) pairs from a bijection per size magnitude, sizes from 2^-16 pt to 2048pt; non-trivial = the product is truncated. \
+         compress: multisets from ten shapes (small integers, lattices with equal gaps, clusters, wide legal, thousandths; raw PL reals: full 32-bit range, design units 1000, clusters at the ends of the range, pairs 2^31-1 apart, with i32::MIN) and 256..300 distinct values, x class limit; two exhaustive 12-point universes; compress_pl_caller: PL text -> pl::File -> tfm::File, the four tables checked with limits 255/15/15/63; non-trivial = more distinct values than the limit. \
+         next_larger: partial functional graphs on character codes, random and arrangements of all 256 codes cut into long paths, cycles and tails; non-trivial = a cycle of length>=2 or a tail leading into a cycle.",
     );
-    ctx.assume("fix_word i32::MIN (-2048.0) is excluded from print/parse: PLtoTF 62-64 rejects every real constant of magnitude >= 2048, so the PL format cannot express it");
-    ctx.assume("to_scaled: font loaded at its design size (TeX 568 with s=-1000), |value| < 16.0 (first byte 0 or 255, otherwise TeX aborts), design size in [1,2048) (TeX aborts below 1)");
-    ctx.assume("compress: inputs are legal font dimensions |v| < 16.0 (differences fit 32 bits, as PLtoTF assumes); 'within half the tolerance' is read on the fix_word grid, |v-rep| <= ceil(tolerance/2), because PLtoTF's own midpoint l+(u-l) div 2 leaves the upper end of an odd-spread class ceil(spread/2) away (golden lower_upper_close_edge_case_3)");
+    ctx.assume("fix_word i32::MIN (-2048.0) is excluded from the read-back half of print/parse: PLtoTF 62-64 rejects every real constant of magnitude >= 2048, so the PL format cannot express it (TFtoPL itself prints `-2048.0`, which PLtoTF rejects); for this word Display must equal TFtoPL's text, reader and writer must not panic, and the reader must report the number rather than return another value silently");
+    ctx.assume("print/parse carriers: DESIGNUNITS nodes carry only positive values and DESIGNSIZE nodes only values >= 1.0 (PLtoTF 94-95 reject others); all values travel in PARAMETER, SLANT, KRN, CHARWD and CHARHT nodes; the writer sub-check demands identical values only, warnings of the re-reading are counted");
+    ctx.assume("to_scaled: |value| < 16.0 (first byte 0 or 255, otherwise TeX aborts); the size argument is TeX's z: a design size in [1,2048) (TeX 568 aborts below 1) or, below 1.0, an `at` size that TeX 568 puts in its place (legal for 0 < s < 2048pt), followed by the same 571-572 arithmetic; size words below 16 (z = 0) are excluded");
+    ctx.assume("compress: inputs are arbitrary fix_words, as the production caller From<pl::File> passes raw PL reals up to +-2047.999999 (PLtoTF 75-80 also works on the values as written; its 32-bit arithmetic is only safe for |v| < 16.0, the reference runs on 64-bit integers); 'within half the tolerance' is read on the fix_word grid, |v-rep| <= ceil(tolerance/2), because PLtoTF's own midpoint l+(u-l) div 2 leaves the upper end of an odd-spread class ceil(spread/2) away (golden lower_upper_close_edge_case_3)");
     ctx.assume("compress is checked by a validity predicate: any partition into consecutive intervals with PLtoTF midpoints, at most `limit` classes and largest spread equal to the smallest feasible tolerance passes; PLtoTF's `excess` rule (stop merging once the table fits) and the full greedy cover are both accepted and counted in the class histogram");
+    ctx.assume("compress_pl_caller: a zero (or absent) height, depth or italic correction is not part of the compressed multiset and has index 0 (PLtoTF 74 sort_in); every width is, an absent CHARWD counts as 0; the multisets are the values the PL reader returned; files with a DESIGNUNITS property are held to the numeric predicate only as long as the tables hold the raw representatives (PLtoTF 128 divides them by the design units on output, which is not modelled), otherwise to the number and order of classes");
     ctx.assume("next_larger: each character has at most one link (a functional graph); a character that carries a link exists; links to absent characters are dropped (TFtoPL 84) or kept (PLtoTF 111) according to the constructor flag before cycles are looked for; the order of warnings is not constrained");
+    ctx.assume("termination of compress / NextLargerProgram::new / From<pl::File> is decided by work: a call that has used 10 s of CPU time (normally microseconds) does not terminate; a call that cannot be decided that way ends the run inconclusive (exit 2)");
 
     calibrate(ctx);
     run_fixword_text(ctx);
@@ -1337,8 +2231,11 @@ pub fn run(ctx: &Ctx) {
 
     // (c)
     run_indexed(ctx, "compress_small", 12 << 12, true, compress_small_case, |c: &CompressCase, case| compress_oracle(ctx, c, case));
-    let n = ctx.tier.pick(40_000u64, 200_000u64);
+    run_indexed(ctx, "compress_small_wide", 12 << 12, true, compress_small_wide_case, |c: &CompressCase, case| compress_oracle(ctx, c, case));
+    let n = ctx.tier.pick(44_000u64, 300_000u64);
     run_generated(ctx, "compress", n, compress_strategy, |c: &CompressCase, case| compress_oracle(ctx, c, case));
+    let n = ctx.tier.pick(3_000u64, 40_000u64);
+    run_generated(ctx, "compress_pl_caller", n, pl_caller_strategy, pl_caller_oracle);
 
     // (d)
     run_indexed(ctx, "next_larger_small", 2 * 6u64.pow(5) * 2, true, |i| { let (o, w) = nl_small_case(i / 2); (o, w, i % 2 == 1) }, |(order, _w, drop): &(Vec<(u8, u8)>, u8, bool), case| {
@@ -1349,10 +2246,13 @@ pub fn run(ctx: &Ctx) {
         }
         match nl_check(order, &exists, *drop, case) {
             Ok(Some(nt)) => Verdict::pass(nt),
-            Ok(None) => Verdict::Skip("an earlier call did not terminate; the function is not called again in this process"),
+            Ok(None) => skipped_after_hang(case),
             Err(e) => Verdict::Fail(e),
         }
     });
+    run_indexed(ctx, "next_larger_long", 8 * 64, false, nl_long_fixed_case, nl_oracle);
     let n = ctx.tier.pick(100_000u64, 1_000_000u64);
     run_generated(ctx, "next_larger", n, nl_strategy, nl_oracle);
+
+    inconclusive_if_hung(ctx);
 }
